@@ -114,7 +114,10 @@ class DataType:
                 return self
             return DataType(self.kind, nullable=True)
 
-        vtype = type(value)
+        # Classify the value exactly as infer_dtype classifies a first element,
+        # so that instances of subclasses (class F(float), class S(str), IntEnum)
+        # promote like their base kind regardless of where they occur.
+        vtype = infer_kind(value)
 
         # Case 2: Exact match
         if vtype is self.kind:
